@@ -220,7 +220,7 @@ pub fn run(env: &Env) -> i32 {
     rep.absorb(r);
     // generated programs
     let prof = Profile::rich();
-    let n = env.cases(1200, 40000);
+    let n = env.cases(4000, 40000);
     let r = run_cases(
         env,
         1,
